@@ -38,7 +38,7 @@ def main():
         demo_dir = wt / '_demo'
         shutil.copytree(src, demo_dir)
         for f in demo_dir.rglob('*.py'):
-            f.write_text(re.sub(r'/tmp/refac-[A-E](?!-out)', str(wt), f.read_text()).replace(str(src), str(demo_dir)))
+            f.write_text(re.sub(r'/tmp/refac[0-9]*-[A-F](?!-out)', str(wt), f.read_text()).replace(str(src), str(demo_dir)))
         rc0, out0 = sh(['/venv/bin/python', str(demo_dir / 'demo.py')], cwd=wt, env=env, timeout=900)
         meta['demo_on_original'] = {'rc': rc0, 'tail': out0[-200:]}
         rc, out = sh(['git', 'apply', str((src / 'patch.diff').resolve())], cwd=wt)
